@@ -16,7 +16,7 @@ STEP_BOUNDS = lambda tier: dict(
     bundles=3 if tier == "thorough" else 2, side_slots_per_bundle="2 (+1 crowd slot in bundle 0)",
     messages_per_bundle=2 if tier == "thorough" else 1,
     connections="acting connection + at most one other subscribed connection",
-    strings="unbounded z3 strings", timestamps="arbitrary non-negative reals",
+    strings="arbitrary strings up to their order/equality pattern (order-embedded into the rationals, the empty string included); code that looks inside a string is outside the fragment (inconclusive)", timestamps="arbitrary non-negative reals",
     outside="states with more rows than the bound; non-string JSON values; float rounding of times")
 
 STEP_ASSUME = [
